@@ -99,7 +99,9 @@ HIST_TIERS = {
 }
 
 
-CHUNK_TIMEOUT_S = 900
+# a chunk normally takes about a second; a worker that is still running after this long hangs
+# (e.g. compiled code of a broken tree smashed its stack) and is killed
+CHUNK_TIMEOUT_S = 600 if os.environ.get("VERIF_TIER") == "thorough" else 120
 
 
 def run_chunk(binary, args, out, inflight):
@@ -199,35 +201,66 @@ def hist_check(prop, tier, seed, runs, workers, secs):
     deadline = t_start + cfg["secs"]
     results = []
     crashes = []
+    garbled_runs = []  # single runs whose worker report is unreadable: process memory corrupted, not evaluable
     skipped_chunks = 0
 
-    def do(chunk):
-        nonlocal skipped_chunks
-        start, n = chunk
-        if time.time() > deadline:
-            skipped_chunks += 1
-            return None
-        out = os.path.join(work, "chunk-%d.json" % start)
-        infl = os.path.join(work, "inflight-%d" % start)
+    def run_range(start, n):
+        """One worker process over [start, start+n). Returns (report or None, crash record or None)."""
+        out = os.path.join(work, "chunk-%d-%d.json" % (start, n))
+        infl = os.path.join(work, "inflight-%d-%d" % (start, n))
         args = ["run", "--prop", prop, "--seed", str(seed), "--start", str(start), "--count", str(n), "--max-ops", str(cfg["max_ops"])] + hash_args(tier)
         rc, text = run_chunk(binary, args, out, infl)
         if rc != 0 or not os.path.exists(out):
-            crashes.append(dict(start=start, count=n, rc=rc, marker=read_marker(infl), output=text[-2000:]))
-            return None
+            return None, dict(start=start, count=n, rc=rc, marker=read_marker(infl), output=text[-2000:])
         try:
             with open(out, "rb") as f:
                 d = json.loads(f.read().decode("utf-8"))
         except (ValueError, UnicodeDecodeError):
             # the worker's memory was corrupted badly enough to garble its own report
-            crashes.append(dict(start=start, count=n, rc="garbled output", marker=read_marker(infl), output=text[-2000:]))
-            return None
+            return None, dict(start=start, count=n, rc="garbled output", marker=read_marker(infl), output=text[-2000:])
         os.remove(out)
-        return d
+        return d, None
+
+    def do(chunk):
+        """A chunk survives the death of its worker: the runs before and after the fatal one are
+        re-dispatched (a run is a pure function of its index), the fatal one is left to the crash
+        attribution below."""
+        nonlocal skipped_chunks
+        if time.time() > deadline:
+            skipped_chunks += 1
+            return []
+        todo = [chunk]
+        reports = []
+        budget = 24
+        while todo:
+            start, n = todo.pop()
+            if n <= 0:
+                continue
+            d, crash = run_range(start, n)
+            if d is not None:
+                reports.append(d)
+                continue
+            m = crash["marker"]
+            if m and m["valid"] == 1 and start <= m["index"] < start + n and budget > 0:
+                crashes.append(crash)
+                budget -= 1
+                idx = m["index"]
+                todo.append((idx + 1, start + n - idx - 1))
+                todo.append((start, idx - start))
+            elif crash["rc"] == "garbled output" and n > 1 and budget > 0:
+                # the worker ran to the end but some run corrupted its memory: bisect
+                budget -= 1
+                todo.append((start + n // 2, n - n // 2))
+                todo.append((start, n // 2))
+            elif crash["rc"] == "garbled output" and n == 1:
+                garbled_runs.append(start)
+            else:
+                crashes.append(crash)
+        return reports
 
     with ThreadPoolExecutor(max_workers=workers) as ex:
-        for d in ex.map(do, chunks):
-            if d is not None:
-                results.append(d)
+        for ds in ex.map(do, chunks):
+            results.extend(ds)
 
     # ---- merge ---------------------------------------------------------------------------------
     runs_done = sum(int(d["runs_done"]) for d in results)
@@ -289,11 +322,17 @@ def hist_check(prop, tier, seed, runs, workers, secs):
     # a worker that died in the history-VM phase after the fresh VM passed is itself a violation
     harness_errors = []
     foreign_crashes = 0
+    unevaluable_deaths = 0
     for c in crashes:
         m = c["marker"]
         attributable = False
         if m and m["valid"] == 1 and prop == "C10" and m["phase"] == 2:
             attributable = True
+        elif m and m["valid"] == 1 and prop == "C10" and m["phase"] == 1:
+            # the *fresh* VM killed the process: the engine dies on this program whatever the
+            # history, so the run cannot be evaluated for C10 (the rest of its chunk was re-run)
+            unevaluable_deaths += 1
+            continue
         elif m and m["valid"] == 1 and prop == "C09":
             # is it a C10 matter (e.g. stale compiled code trampling the heap)? Ask the C10 oracle
             # about the very same scenario, in a process of its own.
@@ -371,6 +410,9 @@ def hist_check(prop, tier, seed, runs, workers, secs):
             "real_components": ["rbpf VM structs, verifier, stack validation, interpreter, x86-64 JIT (compile + emitted code), Cranelift translation + code generator (compile + emitted code)"],
             "stub_components": ["verifier / helper / stack-usage-calculator callbacks (harness fns through rbpf's own seams)", "process allocator wrapper (fails one 4096-aligned allocation on demand)"],
             "worker_crashes": len(crashes),
+            "worker_deaths_in_fresh_vm_phase_unevaluable": unevaluable_deaths,
+            "runs_that_corrupted_their_worker_unevaluable": len(garbled_runs),
+            "worker_deaths_attributed_to_the_other_property": foreign_crashes,
         },
         "assumptions": [
             "a fresh single-use VM built along new(None) -> set_verifier(accept-all) -> helpers -> set_program -> compile is a faithful reference for values (both sides run the same real engine code)",
@@ -399,8 +441,8 @@ def hist_check(prop, tier, seed, runs, workers, secs):
             die("%d worker process(es) died outside the history-VM phase" % len(harness_errors))
     if unlisted:
         return 1
-    if det_failed:
-        # With a violation in hand an address-dependent event log is a symptom (garbage read through
+    if det_failed and not known_hits:
+        # With a violation in hand (listed or not) an address-dependent event log is a symptom (garbage read through
         # a wrong pointer); without one it means the harness itself is not deterministic.
         die("determinism self-check failed: %d of %d re-executed runs produced a different event log" % (det["mismatches"], det["rechecked"]))
     if runs_done == 0:
@@ -466,6 +508,8 @@ def main():
             i += 2
         if tier not in ("quick", "thorough"):
             tier = "quick"
+        global CHUNK_TIMEOUT_S
+        CHUNK_TIMEOUT_S = 600 if tier == "thorough" else 120
         try:
             seed = int(os.environ.get("VERIF_SEED", "1"))
         except ValueError:
